@@ -475,6 +475,10 @@ pub async fn catch_up_sub(
     evt_tx: mpsc::Sender<(Bytes, QueryEventMeta)>,
 ) {
     debug!("catching up sub {} params: {:?}", matcher.id(), params);
+    #[cfg(corro_verif)]
+    let verif_n = verif_hooks::NEXT.fetch_add(1, std::sync::atomic::Ordering::SeqCst);
+    #[cfg(corro_verif)]
+    verif_hooks::rec(verif_n, "from", params.from.map(|f| f.0 as i64).unwrap_or(-1));
 
     let mut buf = BytesMut::new();
 
@@ -545,12 +549,16 @@ pub async fn catch_up_sub(
 
     let mut min_change_id = last_change_id + 1;
     info!(sub_id = %matcher.id(), "minimum expected change id: {min_change_id:?}");
+    #[cfg(corro_verif)]
+    verif_hooks::rec(verif_n, "first", last_change_id.0 as i64);
 
     let mut pending_event = None;
 
     let last_sub_change_id = match queue_rx.try_recv() {
         Ok((event_buf, change_id)) => {
             info!(sub_id = %matcher.id(), "last change id received by subscription: {change_id:?}");
+            #[cfg(corro_verif)]
+            verif_hooks::rec(verif_n, "peek", change_id.0 as i64);
             pending_event = Some((event_buf, change_id));
             Some(change_id)
         }
@@ -558,6 +566,8 @@ pub async fn catch_up_sub(
             TryRecvError::Empty => {
                 let last_change_id_sent = matcher.last_change_id_sent();
                 info!(sub_id = %matcher.id(), "last change id sent by subscription: {last_change_id_sent:?}");
+                #[cfg(corro_verif)]
+                verif_hooks::rec(verif_n, "watch", last_change_id_sent.0 as i64);
                 if last_change_id_sent <= last_change_id {
                     None
                 } else {
@@ -589,7 +599,11 @@ pub async fn catch_up_sub(
                 let res = catch_up_sub_from(&matcher, last_change_id, &evt_tx).await;
 
                 match res {
-                    Ok(new_last_change_id) => last_change_id = new_last_change_id,
+                    Ok(new_last_change_id) => {
+                        #[cfg(corro_verif)]
+                        verif_hooks::rec(verif_n, "read", new_last_change_id.0 as i64);
+                        last_change_id = new_last_change_id
+                    }
                     Err(e) => {
                         if !matches!(e, CatchUpError::Send(_)) {
                             _ = evt_tx
@@ -606,6 +620,8 @@ pub async fn catch_up_sub(
             tokio::time::sleep(Duration::from_millis(100)).await;
         }
         if change_id >= min_change_id {
+            #[cfg(corro_verif)]
+            verif_hooks::rec(verif_n, "stop", 0);
             _ = evt_tx
                 .send(error_to_query_event_bytes_with_meta(
                     &mut buf,
@@ -639,6 +655,8 @@ pub async fn catch_up_sub(
 
     while let Some((event_buf, change_id)) = queue_rx.recv().await {
         info!(sub_id = %matcher.id(), "processing buffered change, id: {change_id:?} (last change id: {last_change_id:?})");
+        #[cfg(corro_verif)]
+        verif_hooks::rec(verif_n, "queued", change_id.0 as i64);
         if change_id > last_change_id {
             info!(sub_id = %matcher.id(), "change was more recent, sending!");
             if let Err(_e) = evt_tx
